@@ -631,25 +631,40 @@ Proof.
   intros [v c1] [v' c1'] [Hx R1]. cbn [fst snd] in Hx, R1. subst v'. apply p2_ok. split; [reflexivity|exact R1].
 Qed.
 
-Lemma stmt_assignment_rel s c c' : rel false s c c' -> prel2 (XR false s) (stmt_assignment T c) (stmt_assignment T c').
+Lemma expression_after2_rel b s l c c' : rel b s c c' ->
+  prel2 (XR b s) (expression_after T c l) (expression_after T c' l).
 Proof.
-  intros R. unfold stmt_assignment. apply (bind2_rel (XR false s)); [apply assignable_p2_rel; exact R|].
-  intros [a c1] [a' c1'] [Hx R1]. cbn [fst snd] in Hx, R1. subst a'.
-  rewrite <- (rel_token _ _ _ _ R1).
-  destruct (assign_op (token c1)) as [op|] eqn:Ao; [|rr2].
-  destruct (assign_op_plain _ _ Ao) as [O Cl].
-  apply (bind2_rel (XR false s)); [apply expression2_rel; apply rel_skip_plain; assumption|].
-  intros [v c2] [v' c2'] [Hx R2]. cbn [fst snd] in Hx, R2. subst v'. apply p2_ok. split; [reflexivity|exact R2].
+  intros R. unfold expression_after. apply prel_embed. apply (call_E_rel b s). split; [reflexivity|split; [reflexivity|exact R]].
 Qed.
 
 Lemma stmt_assign_or_expr_rel s c c' : rel false s c c' ->
   prel2 (XR false s) (stmt_assign_or_expr T c) (stmt_assign_or_expr T c').
 Proof.
-  intros R. unfold stmt_assign_or_expr.
+  intros R. unfold stmt_assign_or_expr. pose proof (ta_rel false s c c' R) as Ta.
   apply (ptry2_rel (XR false s)); [apply assignable_p2_rel; exact R| |].
-  - intros [a c1] [a' c1'] [Hx R1]. cbn [fst snd] in Hx, R1. rewrite <- (rel_token _ _ _ _ R1).
-    destruct (assign_op (token c1)); [apply stmt_assignment_rel|apply stmt_expr_rel]; exact R.
-  - intros. apply stmt_expr_rel. exact R.
+  - intros [a c1] [a' c1'] [Hx R1]. cbn [fst snd] in Hx, R1. subst a'. rewrite <- (rel_token _ _ _ _ R1).
+    destruct (assign_op (token c1)) as [op|] eqn:Ao.
+    + destruct (assign_op_plain _ _ Ao) as [O Cl].
+      apply (bind2_rel (XR false s)); [apply expression2_rel; apply rel_skip_plain; assumption|].
+      intros [v c2] [v' c2'] [Hx R2]. cbn [fst snd] in Hx, R2. subst v'. apply p2_ok. split; [reflexivity|exact R2].
+    + assert (G : prel2 (XR false s) (let* '(v, c2) := expression_after T c1 (EGet a) in ok (SExpr v, c2))
+                                     (let* '(v, c2) := expression_after T c1' (EGet a) in ok (SExpr v, c2))).
+      { apply (bind2_rel (XR false s)); [apply expression_after2_rel; exact R1|].
+        intros [v c2] [v' c2'] [Hx R2]. cbn [fst snd] in Hx, R2. subst v'. apply p2_ok. split; [reflexivity|exact R2]. }
+      destruct (type_assignable c) as [[x cb]|ce es| |], (type_assignable c') as [[x' cb']|ce' es'| |]; try contradiction.
+      * destruct Ta as [_ Rb]. cbn [snd] in Rb. rewrite <- (rel_is_k _ _ _ _ KLeftBrace Rb).
+        destruct (is_k KLeftBrace cb); [apply stmt_expr_rel; exact R|exact G].
+      * exact G.
+      * constructor. exact I.
+      * constructor. exact I.
+  - intros cx es cx' es'. rewrite <- (rel_token _ _ _ _ R).
+    destruct (token c); try (apply stmt_expr_rel; exact R).
+    destruct (type_assignable c) as [[x cb]|ce es0| |], (type_assignable c') as [[x' cb']|ce' es0'| |]; try contradiction.
+    + destruct Ta as [_ Rb]. cbn [snd] in Rb. rewrite <- (rel_is_k _ _ _ _ KLeftBrace Rb).
+      destruct (is_k KLeftBrace cb); [apply stmt_expr_rel; exact R|apply p2_reraise].
+    + apply p2_reraise.
+    + constructor. exact I.
+    + constructor. exact I.
 Qed.
 
 Lemma stmt_def_implied_rel s nm c c' : rel false s c c' -> token c = TIdent nm ->
